@@ -14,7 +14,7 @@ Separate Extraction
   SDict.sd_trace SDict.sd_clean SDict.sd_order SDict.sd_merge SDict.sd_update
   Layout.to_string_plain Layout.foam_to_string_plain Layout.to_string_sd Layout.foam_to_string_sd
   Lexer.lex TokParser.parse_tokens TokParser.parse_string TokParser.levels
-  Reader.read_plain Reader.json_parse Reader.norm_path Reader.write_text
+  Reader.read_plain Reader.json_parse Reader.norm_path Reader.write_text Reader.writer_run
   Expr.variables_of Expr.resolve_reference Expr.subst_refs Expr.py_str_tree
   Cli.cli_kwargs Cli.validate_scope Cli.target_file_name
   Paths.relative_path Paths.norm_join Paths.common_prefix_all Paths.include_directive_text Paths.directive_name
